@@ -4,7 +4,7 @@ import vf
 LEVEL = "exploration"
 LEVEL_TEXT = ("RtpPack.tla states the contract of the packets the server generates for a unit (payload <= M, consecutive sequence "
               "numbers, timestamp = unit timestamp + one offset fixed per format, depacketized payload = delivered payload); TLC "
-              "enumerates codec x entry branch (non-RTP publisher, forced remux, oversized incoming packets) x M in {200,1440,1460} "
+              "enumerates codec x entry branch (non-RTP publisher, forced remux, oversized incoming packets) x M in {200,1440,1460} (thorough: seven values from 100 to 8000) "
               "x sequences of payload-size classes around M; every run is executed on a real Stream/SubStream through "
               "subStreamFormat.writeUnitInner / newRTPEncoder, the packets are depacketized with newRTPDecoder and TLC judges "
               "the observed packets")
@@ -16,7 +16,7 @@ LEVEL_NOTE = ("contract of the packets only (packetization bytes are gortsplib's
 
 def run(ctx):
     d = ctx.specdir()
-    r = vf.mc(ctx, "RtpPack", "RtpPack_gen.cfg", workers=2, timeout=600)
+    r = vf.mc(ctx, "RtpPack", ctx.pick("RtpPack_gen.cfg", "RtpPack_genfull.cfg"), workers=2, timeout=600)
     cases = []
     for c in r.tagged("CASE"):
         c["id"] = len(cases)
